@@ -72,12 +72,17 @@ def main(argv=None):
         proof = common.prove(prop, args.tier)
         ctx = Ctx(prop, args.tier, seed)
         touched = []
+        changed_any = []
         if not args.replay and args.tier == "quick" and os.environ.get("VERIF_NO_DEEPEN") != "1":
             try:
                 from harness import fingerprint
                 touched = fingerprint.changed_for(prop)
             except Exception:  # noqa: BLE001 — a convenience, never a reason to fail
                 touched = []
+            try:
+                changed_any = fingerprint.changed()
+            except Exception:  # noqa: BLE001
+                changed_any = []
             if touched:
                 ctx.deepen = True
                 print("note: functions this property is anchored in differ from the tree the checks were frozen on (%s%s): "
@@ -92,7 +97,7 @@ def main(argv=None):
             except common.ToolFailure:
                 raise
             except Exception as e:  # noqa: BLE001
-                if not touched:
+                if not (touched or changed_any):
                     raise
                 # The harness itself tripped over the behaviour of code that differs from the tree it was built on (its
                 # own bookkeeping assumes what the frozen tree does).  That is no tool failure: the correspondence between
@@ -137,7 +142,7 @@ def main(argv=None):
                 except common.ToolFailure:
                     raise
                 except Exception as e:  # noqa: BLE001
-                    if not touched:
+                    if not (touched or changed_any):
                         raise
                     sres = common.Result()
                     why.append("search run raised %r on the changed code" % (e,))
